@@ -100,6 +100,7 @@ type Exec struct {
 	keepTrace bool
 	keepKeys  bool
 	stateKey  uint64
+	digest    func() uint64
 	opts      []*Thread
 	costs     []int8
 	objVer    []uint32
@@ -126,6 +127,9 @@ type Config struct {
 	KeepTrace bool
 	KeepKeys  bool
 	User      any
+	// Digest (optional) summarises the harness-visible state; the explorer's state cache compares it whenever two
+	// executions reach the same state key (a difference means the key is too coarse: the run is declared broken)
+	Digest func() uint64
 }
 
 // Run executes body as thread 0 under chooser ch until quiescence, a panic or
@@ -137,7 +141,7 @@ func Run(body func(), ch Chooser, cfg Config) *Result {
 		panic("vs.Run: nested execution")
 	}
 	e := &Exec{ch: ch, mainWake: make(chan struct{}, 1), exitAck: make(chan struct{}, 1),
-		horizon: cfg.Horizon, keepTrace: cfg.KeepTrace, keepKeys: cfg.KeepKeys, User: cfg.User,
+		horizon: cfg.Horizon, keepTrace: cfg.KeepTrace, keepKeys: cfg.KeepKeys, digest: cfg.Digest, User: cfg.User,
 		joinAddr: new(byte)}
 	if e.horizon == 0 {
 		e.horizon = 200000
@@ -336,7 +340,48 @@ func Choose(kind string, costs []int8) int {
 	}
 	i := e.ch.Choose(kind, costs)
 	e.mix(uint64(0x9e3779b97f4a7c15) * uint64(i+1))
+	if e.keepKeys && e.running != nil {
+		// a data choice is part of the state: which thread, at which of its steps, chose what
+		k := hashStr(kind) ^ (uint64(e.running.ID+1) * 0xff51afd7ed558ccd) ^ (uint64(e.running.nops+1) * 0x9e3779b97f4a7c15) ^ (uint64(i+1) * 0x94d049bb133111eb)
+		k *= 0xbf58476d1ce4e5b9
+		k ^= k >> 31
+		e.stateKey += k
+	}
 	return i
+}
+
+// PointKey is the state key at the moment of a choice (for the explorer's state cache), with the harness digest.
+//
+//go:norace
+func PointKey() (key, digest uint64) {
+	e := cur
+	if e == nil || !e.keepKeys {
+		return 0, 0
+	}
+	if e.digest != nil {
+		digest = e.digest()
+	}
+	return e.stateKey, digest
+}
+
+// Touch records that the running thread's current step also acted on object obj (a select that completed on a
+// channel other than its first case): the object's version takes part in the state key.
+//
+//go:norace
+func Touch(obj int) {
+	e := cur
+	if e == nil || !e.keepKeys || e.running == nil {
+		return
+	}
+	for len(e.objVer) <= obj {
+		e.objVer = append(e.objVer, 0)
+	}
+	v := e.objVer[obj]
+	e.objVer[obj] = v + 1
+	k := (uint64(e.running.ID+1) * 0xff51afd7ed558ccd) ^ (uint64(obj+1) * 0xc4ceb9fe1a85ec53) ^ (uint64(e.running.nops+1) * 0x9e3779b97f4a7c15) ^ (uint64(v+1) * 0xd6e8feb86659fd93)
+	k *= 0x94d049bb133111eb
+	k ^= k >> 29
+	e.stateKey += k
 }
 
 //go:norace
@@ -409,10 +454,14 @@ func (e *Exec) schedule(from *Thread) {
 	idx := 0
 	if len(opts) > 1 {
 		costs := e.costs[:0]
-		for i := range opts {
+		for i, th := range opts {
 			c := int8(1)
 			if i == 0 {
 				c = 0
+			} else if th.op.Timer && (nNonTimer > 0 || i > nNonTimer) {
+				// a timer fired while a thread could still run, or ahead of an earlier timer: a deviation of the
+				// environment (cost class 2), not a mere thread switch
+				c = 2
 			}
 			costs = append(costs, c)
 		}
@@ -428,20 +477,6 @@ func (e *Exec) schedule(from *Thread) {
 	if e.keepTrace {
 		e.res.Trace = append(e.res.Trace, Step{Thread: next.ID, Kind: op.Kind, Obj: op.Obj})
 	}
-	if e.keepKeys {
-		// Mazurkiewicz-style key: commutative sum over steps of a hash of
-		// (thread, thread-local op index, kind, object, object version).
-		for len(e.objVer) <= op.Obj {
-			e.objVer = append(e.objVer, 0)
-		}
-		v := e.objVer[op.Obj]
-		e.objVer[op.Obj] = v + 1
-		k := sh ^ (uint64(next.nops) * 0x9e3779b97f4a7c15) ^ (uint64(v+1) * 0xd6e8feb86659fd93)
-		k *= 0xbf58476d1ce4e5b9
-		k ^= k >> 29
-		e.stateKey += k
-		e.res.StateKeys = append(e.res.StateKeys, e.stateKey)
-	}
 	if op.Timer {
 		if nNonTimer > 0 {
 			e.res.TimerEarly++
@@ -449,6 +484,22 @@ func (e *Exec) schedule(from *Thread) {
 		if e.clock < op.Deadline {
 			e.clock = op.Deadline
 		}
+	}
+	if e.keepKeys {
+		// Mazurkiewicz-style key: commutative sum over steps of a hash of
+		// (thread, thread-local op index, kind, object, object version, virtual clock at the step).
+		for len(e.objVer) <= op.Obj {
+			e.objVer = append(e.objVer, 0)
+		}
+		v := e.objVer[op.Obj]
+		if op.Obj != 0 { // object 0 = "no shared object": such steps commute with every other step
+			e.objVer[op.Obj] = v + 1
+		}
+		k := sh ^ (uint64(next.nops) * 0x9e3779b97f4a7c15) ^ (uint64(v+1) * 0xd6e8feb86659fd93) ^ (uint64(e.clock) * 0xa0761d6478bd642f)
+		k *= 0xbf58476d1ce4e5b9
+		k ^= k >> 29
+		e.stateKey += k
+		e.res.StateKeys = append(e.res.StateKeys, e.stateKey)
 	}
 	if next == from {
 		return
